@@ -23,7 +23,9 @@ ASSUMPTIONS = [
 
 def plan(tier, seed):
     n = 200 if tier == 'quick' else 3500
-    return [{'world': k, 'version': v, 'n': n} for v in tables.versions() for k in ('segment', 'field', 'message', 'component')]
+    specs = [{'world': k, 'version': v, 'n': n} for v in tables.versions() for k in ('segment', 'field', 'message', 'component')]
+    specs += [{'world': 'parsed', 'version': v, 'n': 40 if tier == 'quick' else 600} for v in tables.versions()]
+    return specs
 
 
 class InvGuard(object):
@@ -101,7 +103,54 @@ def run_history(world, rec, L, ops=None):
     return g.done
 
 
+def run_parsed(spec, rec):
+    """trees built by the parser (group finding on/off, foreign and Z segments) and then edited through the API"""
+    from hl7apy import parser
+    from .. import structref, er7ref
+    from . import c01
+    v = spec['version']
+    rng = gen.rng_for(spec['seed'], 'c10-parsed', v)
+    msgs = tables.messages(v)
+    names = [n for n in sorted(msgs) if structref.usable(v, msgs[n]) and structref.msh9_for(v, n)]
+    for i in range(spec['n']):
+        name = rng.choice(names)
+        text, lines, _ = c01.build_message(rng, v, name, msgs[name], rng.choice(['required', 'random']), 3)
+        parts = text.split('\r')
+        if rng.random() < 0.5:
+            parts.insert(rng.randint(1, len(parts)), 'ZZ1|a^b~c')
+        text = '\r'.join(parts)
+        for fg in (True, False):
+            case = {'world': {'kind': 'parsed', 'version': v}, 'text': text, 'find_groups': fg}
+            rec.evaluation(('parsed', v, fg, text))
+            try:
+                m = parser.parse_message(text, find_groups=fg, validation_level=rng.choice([1, 2]))
+            except Exception:
+                rec.count('parse_rejected')
+                continue
+            steps = [('parse', lambda: None),
+                     ('to_er7+validate', lambda: (m.to_er7(), m.validate(return_errors=True))),
+                     ('read-absent', lambda: (m.msh.msh_3.hd_1, len(m.children), repr(m.children))),
+                     ('edit', lambda: setattr(m.msh, 'msh_10', 'x%d' % i)),
+                     ('add-z', lambda: m.add_segment('ZZ2')),
+                     ('delete-last', lambda: m.children.remove(m.children.list[-1]))]
+            for what, fn in steps:
+                try:
+                    fn()
+                except Exception:
+                    rec.count('calls_raised')
+                errs = treeinv.invariants([m])
+                rec.count('invariant_evaluations')
+                rec.count('elements_walked', treeinv.count_nodes([m]))
+                if errs:
+                    rec.violation('%s:parsed-tree:%s' % (errs[0][0], what), case, {'first': errs[0][1][:300]})
+                    break
+        rec.seen('op_kinds', 'parsed-tree')
+    rec.seen('versions', v)
+
+
 def run_shard(spec, rec):
+    if spec['world'] == 'parsed':
+        return run_parsed(spec, rec)
     v = spec['version']
     rng = gen.rng_for(spec['seed'], 'c10', spec['world'], v)
     for i in range(spec['n']):
@@ -119,6 +168,14 @@ def run_shard(spec, rec):
 
 def replay(case, rec):
     d = case['world']
+    if d['kind'] == 'parsed':
+        from hl7apy import parser
+        m = parser.parse_message(case['text'], find_groups=case['find_groups'])
+        errs = treeinv.invariants([m])
+        rec.evaluation(('replay',))
+        if errs:
+            rec.violation('%s:parsed-tree:parse' % errs[0][0], case, {'first': errs[0][1][:300]})
+        return
     w = hist.make_world(d['kind'], d['version'], d['level'], gen.rng_for(0, 'replay'), **c09.world_kwargs(d))
     run_history(w, rec, 0, ops=case['ops'])
 
